@@ -41,8 +41,8 @@ def run_check(prop: str, thorough: bool, root=None, overlay=None, quiet=False, w
             sd = run_seeded([prop], root=A.root, verbose=False)
             from .selftest import run_benign, run_regressions
             bn = run_benign(props=[prop], root=A.root, verbose=False)
-            rg = run_regressions(root=A.root, verbose=False)
-            rg = {'total': sum(1 for m in [1] * rg['total']), 'reported': rg['reported'], 'missed': rg['missed'], 'not_applicable': rg['not_applicable'], 'note': 'reverse diffs of all fix: commits; each must be reported by the properties it was repaired for'}
+            rg = run_regressions(root=A.root, verbose=False, props=[prop])
+            rg = {'total': rg['total'], 'reported': rg['reported'], 'missed': rg['missed'], 'not_applicable': rg['not_applicable'], 'note': 'reverse diffs of all fix: commits; each must be reported by the properties it was repaired for'}
             R.validation = {'seeded_breaks': v['mutants'], 'reported': v['killed'], 'missed': v['missed'], 'benign_variants': v['benign'], 'silent': v['silent'],
                             'false_alarms': v['false_alarms'], 'operators_no_longer_applicable': v['not_applicable'], 'errors': v['errors'], 'wall_s': v['wall_s'],
                             'independent_seeded_changes': sd,
